@@ -35,6 +35,11 @@ func (r *runner) root() {
 		return
 	}
 	r.rtr = rtr
+	if r.h.YieldResume != nil {
+		r.rootYieldResume()
+		r.endAt = r.now()
+		return
+	}
 	for _, sp := range r.h.Sessions {
 		r.newSession(sp, false, nil)
 	}
